@@ -160,3 +160,16 @@ CHECKS["C03"] = {
     "outside": ["what a well-formed, correctly bound statement does inside SQLite (C08, not applicable)", "message bytes in the store (C09)"],
     "assumptions": [],
 }
+
+CHECKS["C02"] = {
+    "explanation": "Symbolic execution of the update pipeline (State.ApplyUpdate, every Update.Filter/Apply reached, responders, flush, and the real producers AddMessagesToMailbox / RemoveMessagesFromMailbox / actionAddMessagesToMailbox / actionRemoveMessagesFromMailbox / applyMessageFlags{Added,Removed,Set} / NewRemote*MessageFlagsStateUpdate) with an observing state, an acting state and the connector on one mailbox of the relational model; producing a change, delivering its update and the observer's flushes are separate symbolic events; at quiescence the observer's snapshot is compared with the snapshot a freshly selecting state loads from the index.",
+    "harnesses": [
+        {"name": "converge", "pkg": "internal/state", "pkgname": "state", "entry": "VerifC02Converge",
+         "files": ["zz_verif_c02.go", "zz_verif_fixture.go", "zz_verif_world.go"], "with": ["verifdb"], "gen_stubs": [TX_STUB],
+         "params": {"quick": grid(fam=[1], n=[1], k=[4, 5]) + grid(fam=[2], n=[1], k=[3, 4]) + grid(fam=[3], n=[1], k=[4]), "thorough": grid(fam=[1, 2, 3], n=[1, 2], k=[5]) + grid(fam=[0], n=[1], k=[5]) + grid(fam=[1], n=[1], k=[6])},
+         "cover": ["update-delivered"]},
+    ],
+    "stubs": ["internal/verifdb relational model", "state.Connector stub (no remote updates)", "state.UserInterface stub: FIFO, loss-free per-state update queue (async.QueuedChannel is goroutine based: outside)"],
+    "outside": ["the goroutine-backed queue between writer and session", "histories longer than k events", "more than two sessions"],
+    "assumptions": ["updates are delivered to a state in the order they were queued, none is lost"],
+}
